@@ -241,6 +241,11 @@ pub struct LSetup<'a> {
     pub threads: &'a [Vec<LItem>],
     /// let a thread try to enter a cell that is being initialised (costs PROBE per attempt on correct code)
     pub optimistic: bool,
+    /// which `Log` callbacks are scheduling points (`CB_MODE` of c13.rs)
+    pub cb_mode: u8,
+    /// a step that has not come back within SOFT is given this much longer, with everybody else parked, before it is
+    /// taken to be blocked (zero: at once)
+    pub confirm: Duration,
 }
 
 #[derive(Clone, Debug, Default)]
@@ -258,13 +263,14 @@ const PROBE: Duration = Duration::from_millis(40);
 /// a step that takes longer than this is taken to be blocked inside the library (a once-cell without the hook)
 const SOFT: Duration = Duration::from_millis(150);
 
-fn lworker<OC, SC>(me: usize, sched: &Arc<LSched>, file: &File<Vec<u8>, OC, SC, NoLog>, shared: Option<&(impl Resolve + Sync)>,
+fn lworker<OC, SC>(me: usize, cb_mode: u8, sched: &Arc<LSched>, file: &File<Vec<u8>, OC, SC, ParkLog>, shared: Option<&(impl Resolve + Sync)>,
                    pages: &[RcRef<PagesNode>], items: &[LItem], out: &Mutex<Vec<Vec<String>>>, ptrs: &Mutex<Vec<(usize, usize)>>)
 where
     OC: Cache<Result<AnySync, Arc<PdfError>>>,
     SC: Cache<Result<Arc<[u8]>, Arc<PdfError>>>,
 {
     ME.with(|m| *m.borrow_mut() = Some((me, sched.clone() as Arc<dyn Yielder>)));
+    CB_MODE.with(|m| m.set(cb_mode));
     let r = catch_unwind(AssertUnwindSafe(|| {
         sched.yield_at(me, Pos::Start, true);
         let own = file.resolver();
@@ -283,13 +289,14 @@ where
         }
     }));
     ME.with(|m| *m.borrow_mut() = None);
+    CB_MODE.with(|m| m.set(0));
     match r {
         Ok(()) => sched.finish(me, Pos::Done),
         Err(p) => if p.downcast_ref::<AbortMarker>().is_some() { sched.finish(me, Pos::Aborted) } else { sched.finish(me, Pos::Panicked) },
     }
 }
 
-fn lrun_with<OC, SC>(file: File<Vec<u8>, OC, SC, NoLog>, computed: &dyn Fn(u64) -> bool, su: &LSetup,
+fn lrun_with<OC, SC>(file: File<Vec<u8>, OC, SC, ParkLog>, computed: &dyn Fn(u64) -> bool, su: &LSetup,
                      chooser: &mut dyn FnMut(usize, &[usize], &[Pos]) -> Option<usize>) -> Result<(RunOut, LExtra), String>
 where
     OC: Cache<Result<AnySync, Arc<PdfError>>> + Sync,
@@ -314,7 +321,8 @@ where
             let (sched, file, out, ptrs, pages) = (&sched, &file, &out, &ptrs, &pages);
             let items = &su.threads[i];
             let shared = if su.shared_resolver { Some(&shared_res) } else { None };
-            s.spawn(move || lworker(i, sched, file, shared, pages, items, out, ptrs));
+            let cb_mode = su.cb_mode;
+            s.spawn(move || lworker(i, cb_mode, sched, file, shared, pages, items, out, ptrs));
         }
         if !sched.wait_all_parked(STEP_TIMEOUT) {
             report_hang_and_die();
@@ -405,6 +413,11 @@ where
                         extra.probes_blocked += 1;
                         let c = if let Pos::LEnter(c) = pos[i] { c } else { u64::MAX };
                         soft[i] = Some((g0, c));
+                    } else if let Some(p) = if su.confirm.is_zero() || extra.unhooked_blocks > 0 { None } else { sched.collect(i, g0, su.confirm) } {
+                        // only slow (everybody else was parked meanwhile)
+                        pos[i] = p.clone();
+                        trace.push((i, p));
+                        enabled_sets.push(en);
                     } else {
                         // recorded as a step of its own, so that schedules stay replayable by position
                         extra.unhooked_blocks += 1;
@@ -428,7 +441,7 @@ pub fn lrun_schedule(su: &LSetup, chooser: &mut dyn FnMut(usize, &[usize], &[Pos
     let po = if su.tolerant { ParseOptions::tolerant() } else { ParseOptions::strict() };
     macro_rules! go {
         ($oc:expr, $sc:expr, $computed:expr) => {{
-            let file = FileOptions::uncached().cache($oc, $sc).parse_options(po).load(su.bytes.to_vec()).map_err(|e| format!("open: {}", e))?;
+            let file = FileOptions::uncached().cache($oc, $sc).parse_options(po).log(ParkLog).load(su.bytes.to_vec()).map_err(|e| format!("open: {}", e))?;
             lrun_with(file, $computed, su, chooser)
         }};
     }
@@ -441,12 +454,12 @@ pub fn lrun_schedule(su: &LSetup, chooser: &mut dyn FnMut(usize, &[usize], &[Pos
 }
 
 fn lvisible(p: &Pos) -> bool {
-    matches!(p, Pos::Pushed(_) | Pos::Waiting(_) | Pos::Storing(_) | Pos::LEnter(_) | Pos::LStore(_))
+    matches!(p, Pos::Pushed(_) | Pos::Waiting(_) | Pos::Storing(_) | Pos::LEnter(_) | Pos::LStore(_) | Pos::LogGet(_) | Pos::LoadObj(_))
 }
 
 /// every interleaving (strict enabledness), depth first. `reduced`: a thread whose next step touches nothing
 /// shared (entry of `get`, guard push / pop, between items) is run at once without branching.
-fn lexplore(su: &LSetup, reduced: bool, max_runs: usize, mut each: impl FnMut(&RunOut, &LExtra)) -> Result<(usize, bool), String> {
+pub(crate) fn lexplore(su: &LSetup, reduced: bool, max_runs: usize, mut each: impl FnMut(&RunOut, &LExtra)) -> Result<(usize, bool), String> {
     let mut prefix: Vec<usize> = vec![];
     let mut runs = 0;
     let mut blocked_runs = 0;
@@ -462,7 +475,7 @@ fn lexplore(su: &LSetup, reduced: bool, max_runs: usize, mut each: impl FnMut(&R
         if extra.unhooked_blocks > 0 {
             // every such run costs SOFT per block, and its timing is not exactly repeatable: a few of them are enough
             blocked_runs += 1;
-            if blocked_runs >= 6 { return Ok((runs, false)); }
+            if blocked_runs >= (if su.confirm.is_zero() { 6 } else { 2 }) { return Ok((runs, false)); }
         }
         let choices: Vec<usize> = out.trace.iter().map(|t| t.0).collect();
         let mut k = choices.len();
@@ -637,7 +650,7 @@ fn lenumerate(name: &str, st: &mut RStream, or: &mut Oracle, b: &mut LBatch, see
     let seq = lsequential(d, bytes, pages, ts);
     let replay = json!({"stream": name, "seed": seed, "case": case, "doc": d.desc(), "cells": d.cells_desc(), "tolerant": d.tolerant, "threads": items_text(ts), "shared_resolver": shared, "file_hex": crate::driver::hex(bytes)});
     progress(&replay);
-    let su = LSetup { bytes, tolerant: d.tolerant, cfg, shared_resolver: shared, pages, threads: ts, optimistic: false };
+    let su = LSetup { bytes, tolerant: d.tolerant, cfg, shared_resolver: shared, pages, threads: ts, optimistic: false, cb_mode: 0, confirm: Duration::ZERO };
     let r = lexplore(&su, reduced, cap, |out, extra| {
         ljudge(or, d, cfg, ts, &seq, out, extra, &replay);
         if hooks_absent(ts, out, extra) { st.count("Lazy::load has no yield points: schedule not replayed on the model"); return; }
@@ -658,7 +671,7 @@ fn lprobe(name: &str, st: &mut RStream, or: &mut Oracle, b: &mut LBatch, d: &GDo
     let seq = lsequential(d, bytes, pages, ts);
     let replay = json!({"stream": name, "seed": 0, "case": case, "doc": d.desc(), "cells": d.cells_desc(), "tolerant": d.tolerant, "threads": items_text(ts), "shared_resolver": shared, "probe": true, "file_hex": crate::driver::hex(bytes)});
     progress(&replay);
-    let su = LSetup { bytes, tolerant: d.tolerant, cfg, shared_resolver: shared, pages, threads: ts, optimistic: true };
+    let su = LSetup { bytes, tolerant: d.tolerant, cfg, shared_resolver: shared, pages, threads: ts, optimistic: true, cb_mode: 0, confirm: Duration::ZERO };
     let mut j = 1usize;
     let mut blocked_runs = 0;
     loop {
@@ -764,7 +777,7 @@ pub fn stream_lazy_random(driver: &Driver, seed: u64, from: u64, to: u64, or: &m
         let seq = lsequential(&d, &bytes, &pages, &ts);
         let replay = json!({"stream": "c13.lazy.random", "seed": seed, "case": case, "doc": d.desc(), "cells": d.cells_desc(), "tolerant": d.tolerant, "threads": items_text(&ts), "file_hex": crate::driver::hex(&bytes)});
         progress(&replay);
-        let su = LSetup { bytes: &bytes, tolerant: d.tolerant, cfg, shared_resolver: shared, pages: &pages, threads: &ts, optimistic: false };
+        let su = LSetup { bytes: &bytes, tolerant: d.tolerant, cfg, shared_resolver: shared, pages: &pages, threads: &ts, optimistic: false, cb_mode: 0, confirm: Duration::ZERO };
         let mut r2 = rng.clone();
         match lrun_schedule(&su, &mut |_, enabled, _| Some(*r2.pick(enabled))) {
             Ok((out, extra)) => {
